@@ -11,6 +11,7 @@ Record sobs := {
   o_err : bool;                               (* HAProxyUpdate returned an error *)
   o_reload : bool;                            (* queue mode: a reload was enqueued by this update *)
   o_runeq : bool;                             (* the running haproxy has loaded exactly the files now on disk *)
+  o_failed : bool;                            (* instance.lastFailed after the step (hook VerifLastFailed) *)
   o_files : list (N * list (N * N));          (* existing *.cfg: 0 = main, j+1 = shard j; (backend, version marker) *)
   o_def : option N;                           (* default_backend of the http frontend; None = _error404 *)
   o_glob : N;
@@ -36,7 +37,7 @@ Definition loaded_any (e : env) (d : disk) (x : N) : option bcont :=
 
 Definition observe (e : env) (s : inst) (err reload : bool) (runeq : bool) : sobs :=
   let d := i_disk s in
-  {| o_err := err; o_reload := reload; o_runeq := runeq;
+  {| o_err := err; o_reload := reload; o_runeq := runeq; o_failed := i_failed s;
      o_files :=
        (match d_main d with Some m => [(0, file_backs e (m_backs m))] | None => [] end) ++
        flat_map (fun j => match d_shard d j with Some f => [(j + 1, file_backs e f)] | None => [] end) (shard_ids e);
@@ -59,6 +60,7 @@ Definition observe (e : env) (s : inst) (err reload : bool) (runeq : bool) : sob
 Definition n2_eqb := pair_eqb.
 Definition sobs_eqb (a b : sobs) : bool :=
   Bool.eqb (o_err a) (o_err b) && Bool.eqb (o_reload a) (o_reload b) && Bool.eqb (o_runeq a) (o_runeq b) &&
+  Bool.eqb (o_failed a) (o_failed b) &&
   list_eqb (fun p q => (fst p =? fst q) && list_eqb n2_eqb (snd p) (snd q)) (o_files a) (o_files b) &&
   optN_eqb (o_def a) (o_def b) && (o_glob a =? o_glob b) &&
   list_eqb N.eqb (o_crt a) (o_crt b) &&
@@ -71,7 +73,7 @@ Definition sobs_eqb (a b : sobs) : bool :=
 
 (* a file without any section loads nothing: it does not count when comparing what is loaded *)
 Definition drop_empty (o : sobs) : sobs :=
-  {| o_err := o_err o; o_reload := o_reload o; o_runeq := o_runeq o;
+  {| o_err := o_err o; o_reload := o_reload o; o_runeq := o_runeq o; o_failed := o_failed o;
      o_files := filter (fun f => match snd f with [] => false | _ => true end) (o_files o);
      o_def := o_def o; o_glob := o_glob o; o_crt := o_crt o; o_hostmap := o_hostmap o;
      o_rootredir := o_rootredir o; o_rootssl := o_rootssl o; o_backmaps := o_backmaps o;
@@ -92,6 +94,8 @@ Record ostep := {
   s_ops : list op;            (* calls made on Config() before the update *)
   s_faults : list fpoint;     (* faults armed during the update *)
   s_qfail : N;                (* queue mode: failing reloads before the queue's reload succeeds *)
+  s_defer : bool;             (* queue mode: the reload queue does not fire during this step: a reload that is
+                                 (or was already) enqueued waits, and fires at the end of a later step *)
   s_obs : sobs
 }.
 Record hcase := {
@@ -108,8 +112,18 @@ Definition lookup (t : list (N * N)) (x : N) : N :=
 Definition env_of (c : hcase) : env :=
   {| nsh := h_nsh c; sh := lookup (h_shard c); UB := h_ub c; UH := h_uh c; UT := h_ut c; inline := h_inline c |}.
 
-Definition no_pending (s : inst) : inst :=
-  {| i_cfg := i_cfg s; i_disk := i_disk s; i_failed := i_failed s; i_clean := i_clean s; i_running := i_running s; i_pending := false |}.
+Definition set_pending (s : inst) (p : bool) : inst :=
+  {| i_cfg := i_cfg s; i_disk := i_disk s; i_failed := i_failed s; i_clean := i_clean s; i_running := i_running s; i_pending := p |}.
+
+(* one step: the update; [asked] = this update enqueued a reload; the reload stays pending
+   with the ones enqueued before; unless deferred, the queue then fires until a reload succeeds *)
+Definition replay_step (e : env) (s : inst) (st : ostep) : inst * bool * bool :=
+  let s0 := if s_restart st then restart s else s in
+  let '(s1, err) := update_f e (s_faults st) (sync e (set_pending s0 false) (s_ops st)) in
+  let asked := i_pending s1 in
+  let s1' := set_pending s1 (asked || i_pending s0) in
+  let s2 := if s_defer st then s1' else queue_reloads (s_qfail st) s1' in
+  (s2, err, asked).
 
 (* replay: true when every step's observation is the model's *)
 (* [chk_run] = false: no haproxy was attached (C05), the running state is not compared *)
@@ -117,10 +131,7 @@ Fixpoint replay (chk_run : bool) (e : env) (s : inst) (l : list ostep) : bool :=
   match l with
   | [] => true
   | st :: l' =>
-    let s0 := if s_restart st then restart s else s in
-    let '(s1, err) := update_f e (s_faults st) (sync e (no_pending s0) (s_ops st)) in
-    let asked := i_pending s1 in
-    let s2 := queue_reloads (s_qfail st) s1 in
+    let '(s2, err, asked) := replay_step e s st in
     sobs_eqb (observe e s2 err asked (chk_run && run_matches e s2)) (s_obs st) && replay chk_run e s2 l'
   end.
 
@@ -132,8 +143,6 @@ Fixpoint model_trace (e : env) (s : inst) (l : list ostep) : list sobs :=
   match l with
   | [] => []
   | st :: l' =>
-    let s0 := if s_restart st then restart s else s in
-    let '(s1, err) := update_f e (s_faults st) (sync e (no_pending s0) (s_ops st)) in
-    let s2 := queue_reloads (s_qfail st) s1 in
-    observe e s2 err (i_pending s1) (run_matches e s2) :: model_trace e s2 l'
+    let '(s2, err, asked) := replay_step e s st in
+    observe e s2 err asked (run_matches e s2) :: model_trace e s2 l'
   end.
